@@ -27,6 +27,13 @@ CLAIMED = {
          "('entries only disappear, these vertices are cleared') so over-invalidation never alarms; (c) no contract requires a statistics entry, so "
          "objects un-pickled into a fresh interpreter are usable (a KeyError path would be an exit without contract outcome). Traversals/searches "
          "inherit transparency from neighbors()'s contract. Assumed: pickle reconstructs an isomorphic copy including its memo."),
+ "C06": ("proof", "6/C06", "On top of the machine refinement of C07 the loop invariants of all three traversals carry the set-level facts: the listing "
+         "contains the start vertex, has no repetition, every listed vertex is reachable (ReachFrom = reflexive-transitive closure of 'w in "
+         "neighbors(x) and w in the universe'), and the listing is closed under in-universe neighbours - proved on the code for every graph, "
+         "universe (or None), direction / unknown-handling / ff_via setting; closedness + containing start give Reach <= listing by the Lean lemma "
+         "reach_subset_of_closed, hence set equality and agreement of the three traversals. Generator and list forms: the list form is proved to "
+         "return a fresh list holding exactly the yielded sequence; ff_result: output = filter(listing). NOT proved: termination (no variant; "
+         "RecursionError of dft_recursive beyond the interpreter limit is outside the model, A2)."),
  "C07": ("proof", "6/C07", "Each traversal (generator and list form) is proved to refine the canonical machine of the statement, written as a recurrence "
          "whose defining equations are unfolded by the loop invariants: BFS A(k+1) = A(k) ++ new-in-universe-neighbours-of A(k)[k] (FIFO, mark on "
          "enqueue), explicit-stack DFS (pop last, mark on pop, push all neighbours in order), recursive pre-order. The listing is therefore a "
